@@ -194,6 +194,9 @@ type udpSrv struct {
 	script [][]byte
 	got    [][]byte
 	seen   chan struct{}
+	// datagrams to send 90 ms after the next request (strays of an exchange that has ended by then)
+	late     [][]byte
+	lateDone chan struct{}
 }
 
 func newUDPSrv() (*udpSrv, error) {
@@ -201,7 +204,7 @@ func newUDPSrv() (*udpSrv, error) {
 	if err != nil {
 		return nil, err
 	}
-	s := &udpSrv{pc: pc, seen: make(chan struct{}, 64)}
+	s := &udpSrv{pc: pc, seen: make(chan struct{}, 64), lateDone: make(chan struct{}, 64)}
 	go func() {
 		buf := make([]byte, 65536)
 		for {
@@ -215,6 +218,19 @@ func newUDPSrv() (*udpSrv, error) {
 			s.mu.Unlock()
 			for _, d := range script {
 				_, _ = pc.WriteTo(d, addr)
+			}
+			s.mu.Lock()
+			late := s.late
+			s.late = nil
+			s.mu.Unlock()
+			if late != nil {
+				go func(addr net.Addr) {
+					time.Sleep(90 * time.Millisecond)
+					for _, d := range late {
+						_, _ = pc.WriteTo(d, addr)
+					}
+					s.lateDone <- struct{}{}
+				}(addr)
 			}
 			select {
 			case s.seen <- struct{}{}:
@@ -599,10 +615,15 @@ func execHistory(f []string, srv *udpSrv) (string, bool) {
 			} else {
 				addr := srv.pc.LocalAddr().String()
 				timeout := 2 * time.Second
-				var script [][]byte
+				var script, lateScript [][]byte
 				switch {
 				case g[2] == "X" && len(g) == 3:
 					addr = "127.0.0.1:99999"
+				case g[2] == "L" && len(g) > 3:
+					for _, h := range g[3:] {
+						lateScript = append(lateScript, unhx(h))
+					}
+					timeout = 60 * time.Millisecond
 				case g[2] == "G":
 					accepted := false
 					for _, h := range g[3:] {
@@ -619,6 +640,11 @@ func execHistory(f []string, srv *udpSrv) (string, bool) {
 					return "bad-op", true
 				}
 				srv.arm(script)
+				if lateScript != nil {
+					srv.mu.Lock()
+					srv.late = lateScript
+					srv.mu.Unlock()
+				}
 				ctx, cancel := context.WithTimeout(context.Background(), timeout)
 				func() {
 					defer func() {
@@ -635,7 +661,15 @@ func execHistory(f []string, srv *udpSrv) (string, bool) {
 				}()
 				cancel()
 				got := srv.received()
-				if len(got) == 0 && res.err != nil && g[2] == "G" {
+				if lateScript != nil && len(got) > 0 {
+					// let the strays leave (and reach whatever socket is still open for them) before the next operation
+					select {
+					case <-srv.lateDone:
+					case <-time.After(500 * time.Millisecond):
+					}
+					time.Sleep(5 * time.Millisecond)
+				}
+				if len(got) == 0 && res.err != nil && (g[2] == "G" || g[2] == "L") {
 					// the request may still be in flight towards the server goroutine
 					select {
 					case <-srv.seen:
@@ -643,7 +677,7 @@ func execHistory(f []string, srv *udpSrv) (string, bool) {
 					}
 					got = srv.received()
 				}
-				if len(got) == 0 && res.err != nil && g[2] == "G" {
+				if len(got) == 0 && res.err != nil && (g[2] == "G" || g[2] == "L") {
 					// the request never reached the server: the (short) deadline expired before the
 					// datagram was sent (loaded machine).  Not an observation of the code: run again.
 					return "", false
@@ -1071,7 +1105,22 @@ func (g *cacheGen) history() string {
 			case x < 4:
 				ops = append(ops, fmt.Sprintf("N,%s,X", hx(p)))
 				c.Stat("dns53:dial-error")
-			case x < 6:
+			case x < 5 && len(qs) > 1:
+				// the answer comes after the exchange has ended (a stray), and the NEXT plain-DNS query - another question -
+				// carries the same ID: it must get, and the cache must store, its own answer
+				b, _ := g.response(id, qsec, q.typ, q.class)
+				ops = append(ops, strings.Join([]string{"N", hx(p), "L", hx(b)}, ","))
+				stored = append(stored, len(ops)-1)
+				q2 := qs[r.Intn(len(qs))]
+				for t := 0; t < 8 && string(q2.wire) == string(q.wire); t++ {
+					q2 = qs[r.Intn(len(qs))]
+				}
+				p2 := g.query(q2, id)
+				qsec2 := append(append(append([]byte{}, q2.wire...), be16(q2.typ)...), be16(q2.class)...)
+				b2, _ := g.response(id, qsec2, q2.typ, q2.class)
+				ops = append(ops, strings.Join([]string{"N", hx(p2), "G", hx(b2)}, ","))
+				c.Stat("dns53:stray-then-same-id")
+			case x < 7:
 				// nothing acceptable arrives
 				var ds []string
 				if r.Bool() {
